@@ -20,6 +20,21 @@ use crate::world;
 
 /// Entry alphabet of the standard families. A, B, C are the three keys of the family.
 pub const ENTRIES: [&str; 12] = ["vA", "vB", "vC", "iA", "mAB", "rA", "eA", "uA", "uB", "sA", "pA", "cA"];
+
+/// Randomized schemes have signature *classes*: an ECDSA signature whose DER encoding is shorter
+/// than 70 bytes (r or s with a leading zero byte, about 1 in 250), an RSA-PSS value with a leading
+/// zero byte (1 in 256). Searched (sign until seen), not enumerated.
+fn unusual_signature(k: &Key, meta: &MetadataWrapper) -> Option<Signature> {
+    for _ in 0..8000 {
+        let s = world::sign(meta.clone(), &[k]).signatures[0].clone();
+        let h = sig_hex(&s);
+        let unusual = if k.kind == "ecdsa" { h.len() / 2 < 70 } else if k.kind.starts_with("rsa") { h.starts_with("00") } else { return None };
+        if unusual {
+            return Some(s);
+        }
+    }
+    None
+}
 /// Entries that only occur in lists of length <= 3 in the quick tier.
 const LATE: usize = 7;
 
@@ -60,7 +75,8 @@ pub fn family(name: &'static str, names: [&str; 3]) -> Family {
     let meta = the_meta();
     let sign = |k: &Key| -> Signature { world::sign(meta.clone(), &[k]).signatures[0].clone() };
     let (va, vb, vc) = (sign(ks[0]), sign(ks[1]), sign(ks[2]));
-    let ra = sign(ks[0]); // a second signature by A (different bytes for randomized schemes)
+    // a second signature by A (different bytes for randomized schemes; of an unusual class if one is found)
+    let ra = unusual_signature(ks[0], &meta).unwrap_or_else(|| sign(ks[0]));
     let a_id = ks[0].id();
     let garbage = "00".repeat(sig_hex(&va).len() / 2);
     // a well-formed signature by A over other content (a stale signature)
@@ -340,7 +356,7 @@ pub fn run(tier: Tier) -> i32 {
         // only in lists of length <= 3
         let standard = f.entries.len() == ENTRIES.len();
         // the entries from LATE on: in lists of length <= 3 (quick) / <= 4 (thorough)
-        let late_max = if tier.thorough() { 4 } else { 3 };
+        let late_max = if tier.thorough() && (f.name == "ed25519" || f.name.starts_with("guise")) { 4 } else { 3 };
         let ls: Vec<Vec<usize>> = lists(f.entries.len(), *maxlen).into_iter().filter(|l| !standard || l.len() <= late_max || l.iter().all(|e| *e < LATE)).collect();
         bounds.push(format!("{}: lists <= {maxlen} ({} lists)", f.name, ls.len()));
         let accs = util::par_fold(&ls, Acc::new, |acc, i, list| {
@@ -367,6 +383,7 @@ pub fn run(tier: Tier) -> i32 {
     c.assume("ring's verification primitives are a trusted black box; three fixed keys per family");
     c.assume("sufficiency is only demanded when every key id occurs at most once in the list and no key appears under two ids (as the statement says: each key signs at most once)");
     c.assume("two PublicKey values over the same key material are one key");
+    c.assume("searched, not enumerated: the entry rA of the ECDSA / RSA families is a signature of an unusual class (short DER encoding / leading zero byte), found by signing until one appears");
     c.finish()
 }
 
